@@ -378,6 +378,9 @@ class SQLiteTrigger(BaseTrigger):
         now = datetime.now(UTC)
         expiration = now + timedelta(seconds=expiration_seconds)
         with sqlite_conn(self.sqlite_db_path) as conn:
+            # Take the write lock before reading: select-then-insert in autocommit mode
+            # lets two processes both find no claim and both win it.
+            conn.execute("BEGIN IMMEDIATE")
             cursor = conn.execute(
                 f"SELECT expiration FROM {self.tables.TRIGGER_RUN_CLAIMS} WHERE trigger_run_id = ?",
                 (trigger_run_id,),
